@@ -41,7 +41,8 @@ asn1c_emit_constraint_checking_code(arg_t *arg) {
 	if(r_value) {
 		if(r_value->incompatible
 		|| r_value->empty_constraint
-		|| (r_value->left.type == ARE_MIN
+		|| (r_value->el_count == 0	/* a union may have gaps */
+			&& r_value->left.type == ARE_MIN
 			&& r_value->right.type == ARE_MAX)
 		|| (etype == ASN_BASIC_BOOLEAN
 			&& r_value->left.value == 0
@@ -54,7 +55,8 @@ asn1c_emit_constraint_checking_code(arg_t *arg) {
 	if(r_size) {
 		if(r_size->incompatible
 		|| r_size->empty_constraint
-		|| (r_size->left.value == 0	/* or .type == MIN */
+		|| (r_size->el_count == 0	/* a union may have gaps */
+			&& r_size->left.value == 0	/* or .type == MIN */
 			&& r_size->right.type == ARE_MAX)
 		) {
 			asn1constraint_range_free(r_size);
